@@ -91,7 +91,7 @@ const WS: &str = "\u{2423}";
 /// None open on f79f80c (the former K1, K2, K3, K5 are repaired, see the module doc; K4 is the narrowing F).
 pub const KNOWN: &[(&str, &str, &str)] = &[];
 
-const BOUND: &str = "A: 75 paths (ASCII, spaces, %, %2F, */, /*, quotes, backslashes, ?query#frag, relative/absolute/URL, CJK, astral, combining, controls, empty) x 5 spellings (\"..\", '..', url(..), url(\"..\"), url( '..' )) x 2 escape styles x {no condition, layer(a) supports(display: grid) print and (min-width: 10px)} x 4 shapes (alone, before a rule, after @charset, after a rule) x cfg {S, N, Spc}; B: 3 paths x 3 spellings x 5 layer forms x 7 supports forms x 10 media query lists x 4 separator styles x 7 cfgs; C: 18 sheet shapes (top, after imports, after @charset/@layer statements, after rules/@media/@font-face/:host blocks, up to 4 imports, missing final `;`) x 200 LCG-drawn import specifications x 7 cfgs; D: 38 directed ill-formed/exotic sheets x 7 cfgs (clause 7 only for the ill-formed imports); E: 12000 LCG-drawn sheets of 1-6 imports/rules after optional @charset and 0-2 @layer statements, LCG-drawn cfg.  cfgs: S/N = import sign SIGN/none, p class prefix, c class-prefix sign, h convert_host, r rpx_ratio 375.  Narrowed: a sheet with an ill-formed import AND a Fatal `unexpected character` warning is checked for `no panic` only (F)";
+const BOUND: &str = "A: 75 paths (ASCII, spaces, %, %2F, */, /*, quotes, backslashes, ?query#frag, relative/absolute/URL, CJK, astral, combining, controls, empty) x 5 spellings (\"..\", '..', url(..), url(\"..\"), url( '..' )) x 2 escape styles x {no condition, layer(a) supports(display: grid) print and (min-width: 10px)} x 4 shapes (alone, before a rule, after @charset, after a rule) x cfg {S, N, Spc}; B: 3 paths x 3 spellings x 5 layer forms x 7 supports forms x 10 media query lists x 4 separator styles x 7 cfgs; C: 18 sheet shapes (top, after imports, after @charset/@layer statements, after rules/@media/@font-face/:host blocks, up to 4 imports, missing final `;`) x 200 LCG-drawn import specifications x 7 cfgs; D: 38 directed ill-formed/exotic sheets x 7 cfgs (clause 7 only for the ill-formed imports); E: 12000 LCG-drawn sheets of 1-6 imports/rules after optional @charset and 0-2 @layer statements, LCG-drawn cfg.  cfgs: S/N = import sign SIGN/none, p class prefix, c class-prefix sign, h convert_host, r rpx_ratio 375.  Narrowed: a sheet with an ill-formed import AND a Fatal `unexpected character` warning is checked for `no panic` only (F); N: 7 rule-bearing at-rule wrappers (also nested two deep) x 4 import forms x {alone, before a rule} x cfg {S, N, Sp}: every nested import is replaced by one placeholder (or passes through without a sign), blocks stay balanced";
 
 fn strict(id: &str) -> bool {
     static S: std::sync::OnceLock<String> = std::sync::OnceLock::new();
@@ -839,6 +839,20 @@ pub fn search() -> Outcome {
         let (css, paths) = sheet(&shape, &mut r, |r| draw_spec(r, prefix));
         if let Some(o) = eval(cfg, &css, Some(&paths)) { return o; }
     }
+    // family N
+    for (a, b) in NESTED_WRAP {
+        for (imp, _path) in NESTED_IMPORTS {
+            for tail in ["", ".b{color:red}"] {
+                for cfg in ["S", "N", "Sp"] {
+                    let css = format!("{}{}{}{}", a, imp, tail, b);
+                    count += 1;
+                    if let Some((got, want)) = check_nested(cfg, &css) {
+                        return Outcome { found: true, input: format!("nested:{}|{}", cfg, enc(&css)), observed: got, expected: want, evaluations: count, bound: BOUND.into() };
+                    }
+                }
+            }
+        }
+    }
     if std::env::var_os("IMPORTSIGN_STATS").is_some() {
         let g = |i: usize| STATS[i].load(std::sync::atomic::Ordering::Relaxed);
         eprintln!("imports asserted in full: {} with sign, {} without; imports with clause 7 only: {}; sheets without claim (F): {}; late-import warnings asserted: {}", g(0), g(1), g(2), g(3), g(4));
@@ -846,7 +860,51 @@ pub fn search() -> Outcome {
     Outcome::none(count, BOUND)
 }
 
+// ---- family N: imports nested in the block of a rule-bearing at-rule ("forall positions") -------------------------
+fn scan_nested(p: &mut cssparser::Parser, imports: &mut usize, comments: &mut Vec<String>) {
+    loop {
+        let t = match p.next_including_whitespace_and_comments() { Ok(t) => t.clone(), Err(_) => break };
+        match &t {
+            cssparser::Token::AtKeyword(k) if k.eq_ignore_ascii_case("import") => *imports += 1,
+            cssparser::Token::Comment(c) => comments.push(c.to_string()),
+            cssparser::Token::Function(_) | cssparser::Token::ParenthesisBlock | cssparser::Token::SquareBracketBlock | cssparser::Token::CurlyBracketBlock => {
+                let _ = p.parse_nested_block(|q| -> Result<(), cssparser::ParseError<()>> { scan_nested(q, imports, comments); Ok(()) });
+            }
+            _ => {}
+        }
+    }
+}
+const NESTED_WRAP: &[(&str, &str)] = &[("@media screen{", "}"), ("@supports (display:grid){", "}"), ("@layer l{", "}"), ("@media screen{@supports (a:b){", "}}"), ("@container c (min-width:1px){.z{color:red}", "}"), ("@scope (.a){", "}"), ("@MEDIA print{", "}")];
+const NESTED_IMPORTS: &[(&str, &str)] = &[("@import \"a.wxss\";", "a.wxss"), ("@import url(b.wxss) print;", "b.wxss"), ("@import 'c d' layer(x) supports(display:grid) screen;", "c d"), ("@import url(\"e\");@import 'f';", "e")];
+fn check_nested(cfg: &str, css: &str) -> Option<(String, String)> {
+    let c = parse_cfg(cfg)?;
+    let (out, _warn_lines, _other) = compile(c, css);
+    let count = |text: &str| { let mut pi = cssparser::ParserInput::new(text); let mut p = cssparser::Parser::new(&mut pi); let (mut n, mut cm) = (0usize, vec![]); scan_nested(&mut p, &mut n, &mut cm); (n, cm) };
+    let (n_in, _) = count(css);
+    let (n_out, comments) = count(&out);
+    let opens = out.matches('{').count();
+    let closes = out.matches('}').count();
+    if opens != closes { return Some((format!("output {:?}: {} `{{` but {} `}}`", out, opens, closes), "balanced blocks".into())); }
+    if cfg.starts_with('S') {
+        let signs: Vec<&String> = comments.iter().filter(|c| c.starts_with("SIGN ")).collect();
+        if n_out != 0 || signs.len() != n_in {
+            return Some((format!("output {:?}: {} `@import` left, {} placeholder comments for {} imports", out, n_out, signs.len(), n_in), "every import, at any nesting depth, replaced by one placeholder comment".into()));
+        }
+    } else if n_out != n_in {
+        return Some((format!("output {:?}: {} `@import` rules for {} in the input", out, n_out, n_in), "without an import sign every import passes through".into()));
+    }
+    None
+}
+
 pub fn run(input: &str) -> Outcome {
+    if let Some(rest) = input.strip_prefix("nested:") {
+        let (cfg, css) = rest.split_once('|').unwrap_or(("S", rest));
+        let css = dec(css).unwrap_or_default();
+        return match check_nested(cfg, &css) {
+            Some((got, want)) => Outcome { found: true, input: input.into(), observed: got, expected: want, evaluations: 1, bound: "single input".into() },
+            None => Outcome { found: false, input: input.into(), observed: String::new(), expected: String::new(), evaluations: 1, bound: "single input".into() },
+        };
+    }
     let parsed = input.split_once('|').and_then(|(c, s)| Some((parse_cfg(c)?, dec(s)?)));
     let Some((c, css)) = parsed else {
         return Outcome { found: true, input: input.into(), observed: "input is not `<cfg>|<css>` (cfg: S or N, then any of p c h r; css with ^q ^n ^^ ^u{HEX} escapes)".into(), expected: "a well-formed input".into(), evaluations: 0, bound: "single input".into() };
